@@ -421,6 +421,13 @@ POS_TYPES = [("int", int), ("numpy.int64", numpy.int64), ("numpy.int32", numpy.i
              ("0-d ndarray", lambda v: numpy.array(v, dtype=numpy.int64))]
 
 
+# position objects for which a loud refusal of a valid span is tolerated: everything but a Python int.  The pinned code itself refuses some of
+# them loudly (randomize with numpy.uint64 or 0-d tensors; substitute with numpy.int8(100) and a 40-column motif, where start + width
+# overflows the caller's 8-bit type), and the functions document positions as `int`.  What is never tolerated for any of these types: a
+# silently different result, an accepted invalid span, or a modified position object.
+LENIENT_TYPES = tuple(t for t, _ in POS_TYPES if t != "int")
+
+
 def _pos(v, mk):
     """the integer v as the given integer-like type, or None if the type cannot hold it"""
     if mk in (numpy.uint8, numpy.uint32, numpy.uint64) and v < 0:
@@ -457,15 +464,15 @@ def run_argtypes(rec, sh):
             marg = _motif_forms(m2, A, "shared", len(codes))
             v_sub = 0 <= a <= L - 2
             _check_call(rec, "substitute", ersatz.substitute, X, Xc, [], v_sub, _expect_sub(codes, m2, a) if v_sub else None,
-                        dict(case, fn="substitute"), (marg,), dict(start=pa, alphabet=alpha), lenient_refusal=tname != "int")
+                        dict(case, fn="substitute"), (marg,), dict(start=pa, alphabet=alpha), lenient_refusal=tname in LENIENT_TYPES)
             _check_call(rec, "insert", ersatz.insert, X, Xc, [], 0 <= a <= L, _expect_ins(codes, m2, a) if 0 <= a <= L else None,
-                        dict(case, fn="insert"), (marg,), dict(start=pa, alphabet=alpha), lenient_refusal=tname != "int")
+                        dict(case, fn="insert"), (marg,), dict(start=pa, alphabet=alpha), lenient_refusal=tname in LENIENT_TYPES)
             v_ms = 0 <= a and a + 2 + 1 + 1 <= L
             exp = None
             if v_ms:
                 exp = _expect_sub(_expect_sub(codes, m2, a), m1, a + 3)
             _check_call(rec, "multisubstitute", ersatz.multisubstitute, X, Xc, [], v_ms, exp, dict(case, fn="multisubstitute", spacing=1),
-                        ([s_of(m2[0]), s_of(m1[0])], 1), dict(start=pa, alphabet=alpha), lenient_refusal=tname != "int")
+                        ([s_of(m2[0]), s_of(m1[0])], 1), dict(start=pa, alphabet=alpha), lenient_refusal=tname in LENIENT_TYPES)
             if not _same_pos(pa, a):
                 rec.violation("multisubstitute:position_argument_modified", dict(case, fn="substitute/insert/multisubstitute"),
                               expected=a, observed=str(pa), msg="the caller's position object changed by the call")
@@ -477,12 +484,12 @@ def run_argtypes(rec, sh):
                 valid = 0 <= a < b <= L
                 c2 = dict(case, fn="delete", end=b)
                 _check_call(rec, "delete", ersatz.delete, X, Xc, [], valid, numpy.concatenate([codes[:, :a], codes[:, b:]], axis=1) if valid else None,
-                            c2, (pa, pb), {}, lenient_refusal=tname != "int")
+                            c2, (pa, pb), {}, lenient_refusal=tname in LENIENT_TYPES)
                 uni = torch.full((1, A), 1.0 / A, dtype=torch.float64)
                 uni[0, -1] = 1.0 - float(uni[0, :-1].sum())
                 st, val = call(ersatz.randomize, X, pa, pb, probs=uni, n=2, random_state=3)
                 rec.case(1, 1)
-                if st != "ok" and valid and tname != "int":
+                if st != "ok" and valid and tname in LENIENT_TYPES:
                     rec.count("refused_position_type")
                 elif (st == "ok") != valid:
                     rec.violation("randomize:accepts_invalid" if st == "ok" else "randomize:rejects_valid", dict(c2, fn="randomize"),
@@ -497,6 +504,29 @@ def run_argtypes(rec, sh):
                 if not torch.equal(X, Xc):
                     rec.violation("randomize:input_modified", dict(c2, fn="randomize"))
                     X = Xc.clone()
+    # positions near the limit of narrow integer types: start 100 with a 40-column motif in a 200-column sequence (100 + 40 > 127)
+    Lb, wb, pb = 200, 40, 100
+    cb = (numpy.arange(Lb)[None, :] * (numpy.arange(3)[:, None] + 2) + numpy.arange(3)[:, None]) % A
+    Xb = ohe(cb, A, torch.float32)
+    Xbc = Xb.clone()
+    mb = (numpy.arange(wb)[None, :] * 3 + 1) % A
+    for tname, mk in POS_TYPES:
+        for p0 in (pb, 127, 126, 88):
+            pa = _pos(p0, mk)
+            if pa is None:
+                continue
+            marg = _motif_forms(mb, A, "shared", 3)
+            case = dict(A=A, L=Lb, start=p0, position_type=tname, motif_width=wb)
+            _check_call(rec, "insert", ersatz.insert, Xb, Xbc, [], True, _expect_ins(cb, mb, p0), dict(case, fn="insert"), (marg,),
+                        dict(start=pa, alphabet=alpha), lenient_refusal=tname in LENIENT_TYPES)
+            _check_call(rec, "substitute", ersatz.substitute, Xb, Xbc, [], True, _expect_sub(cb, mb, p0), dict(case, fn="substitute"), (marg,),
+                        dict(start=pa, alphabet=alpha), lenient_refusal=tname in LENIENT_TYPES)
+            pe = _pos(p0 + wb, mk) if p0 + wb <= 127 or "int8" not in tname else None
+            if pe is not None:
+                _check_call(rec, "delete", ersatz.delete, Xb, Xbc, [], True, numpy.concatenate([cb[:, :p0], cb[:, p0 + wb:]], axis=1),
+                            dict(case, fn="delete", end=p0 + wb), (pa, pe), {}, lenient_refusal=tname in LENIENT_TYPES)
+            if not _same_pos(pa, p0):
+                rec.violation("insert:position_argument_modified", case, expected=p0, observed=str(pa))
     rec.sample(dict(fn="argtypes", A=A, L=L, position_types=[t for t, _ in POS_TYPES], starts="[-2, L+2]", spans="all (start,end) in [-2,L+2]^2"))
 
 
